@@ -101,10 +101,53 @@ class Havoc:
         return x
 
 
+class _AsyncResult:
+    def __init__(self, pool, thunk, callback, error_callback):
+        self.pool, self.thunk, self.callback, self.error_callback = pool, thunk, callback, error_callback
+        self.done = False
+        self.value = None
+        self.exc = None
+
+    def _run(self):
+        if self.done:
+            return
+        self.done = True
+        try:
+            self.value = self.thunk()
+        except Exception as e:          # the worker's exception travels back to the parent as an object
+            self.exc = e
+            if self.error_callback is not None:
+                self.error_callback(e)
+            return
+        if self.callback is not None:
+            self.callback(self.value)
+
+    def get(self, timeout=None):
+        self.pool._run_one(self)
+        if self.exc is not None:
+            raise self.exc
+        return self.value
+
+    def wait(self, timeout=None):
+        self.pool._run_one(self)
+
+    def ready(self):
+        return self.done
+
+    def successful(self):
+        if not self.done:
+            raise ValueError("not ready")
+        return self.exc is None
+
+
 class FakePool:
-    """multiprocessing.Pool contract: imap yields f(x) in input order; imap_unordered yields the same results in an
-    arbitrary (symbolic) completion order; an exception raised by f is re-raised to the consumer at that position.
-    `order` is a class attribute set by the harness: a list of symbolic ints used Lehmer-style."""
+    """multiprocessing.Pool, documented contract only:
+    imap yields f(x) in input order; imap_unordered yields the same results in an arbitrary (symbolic) completion order;
+    an exception raised by f is re-raised to the consumer at that position; map/starmap return lists in input order;
+    apply_async/map_async queue work that completes in arbitrary (symbolic) order no later than join()/get(): on
+    success the callback receives the result, on failure the error_callback receives the exception, which is
+    otherwise only re-raised by get(); join() requires close(); leaving the with-block terminates the pool,
+    discarding work that has not completed.  `order` (class attribute set by the harness) drives every choice."""
     order = []
     created = []
 
@@ -112,13 +155,67 @@ class FakePool:
         if a or k:
             raise StubLimit("Pool arguments beyond `processes` not modelled")
         self.processes = processes
+        self.pending = []
+        self.closed = False
+        self.terminated = False
+        self._k = 0
         FakePool.created.append(processes)
+
+    def _choice(self, n):
+        o = FakePool.order[self._k] if self._k < len(FakePool.order) else 0
+        self._k += 1
+        for c in range(n):
+            if o % n == c:
+                return c
+        return 0
 
     def __enter__(self):
         return self
 
     def __exit__(self, *a):
+        self.terminate()
         return False
+
+    def terminate(self):
+        self.terminated = True
+        self.pending = []
+
+    def close(self):
+        self.closed = True
+
+    def join(self):
+        if not (self.closed or self.terminated):
+            raise ValueError("Pool is still running")
+        while self.pending:
+            self.pending.pop(self._choice(len(self.pending)))._run()
+
+    def _run_one(self, res):
+        # anything queued earlier may complete first; this one completes now at the latest
+        if res in self.pending:
+            self.pending.remove(res)
+        res._run()
+
+    def _submit(self, thunk, callback, error_callback):
+        if self.closed or self.terminated:
+            raise ValueError("Pool not running")
+        r = _AsyncResult(self, thunk, callback, error_callback)
+        self.pending.append(r)
+        return r
+
+    def apply_async(self, func, args=(), kwds=None, callback=None, error_callback=None):
+        kwds = kwds or {}
+        return self._submit(lambda: func(*args, **kwds), callback, error_callback)
+
+    def apply(self, func, args=(), kwds=None):
+        return self.apply_async(func, args, kwds).get()
+
+    def map_async(self, f, xs, chunksize=None, callback=None, error_callback=None):
+        xs = list(xs)
+        return self._submit(lambda: [f(x) for x in xs], callback, error_callback)
+
+    def starmap_async(self, f, xs, chunksize=None, callback=None, error_callback=None):
+        xs = list(xs)
+        return self._submit(lambda: [f(*x) for x in xs], callback, error_callback)
 
     def imap(self, f, xs, chunksize=1):
         for x in list(xs):
@@ -127,19 +224,14 @@ class FakePool:
     def imap_unordered(self, f, xs, chunksize=1):
         xs = list(xs)
         idx = list(range(len(xs)))
-        k = 0
         while idx:
-            o = FakePool.order[k] if k < len(FakePool.order) else 0
-            k += 1
-            j = 0
-            # explicit case split instead of symbolic indexing
-            for c in range(len(idx)):
-                if o % len(idx) == c:
-                    j = c
-            yield f(xs[idx.pop(j)])
+            yield f(xs[idx.pop(self._choice(len(idx)))])
 
     def map(self, f, xs, chunksize=None):
         return [f(x) for x in list(xs)]
+
+    def starmap(self, f, xs, chunksize=None):
+        return [f(*x) for x in list(xs)]
 
     def __getattr__(self, name):
         raise StubLimit("Pool.%s not modelled" % name)
